@@ -253,6 +253,9 @@ def mutate(r, m, proto):
         ln = r.choice([lo - 1, lo, hi, hi + 1])
         if ln < 0:
             ln = hi + 1
+        if r.random() < 0.12 and 65536 + lo <= 65535 + 269:
+            # far above the limit, and equal to a legal length modulo 2^16
+            ln = 65536 + r.randint(lo, min(hi, 268))
         del data[opt_start:]
         data += cw.encode_options([(num, rbytes(r, ln))])
     elif kind == "ext-token-bytes":
